@@ -258,7 +258,33 @@ CLAIMS["C18"]["text"] += " Every supplied parameter is recorded as seen, require
 CLAIMS["C26"]["text"] += " Clone-constrained builders of the prelude store clones only (CLONE-STORE)."
 CLAIMS["C03"]["text"] += " A member assignment whose member is not a struct field is rejected before the generator computes a field index (ASSIGN-TARGET)."
 CLAIMS["C16"]["text"] += " Peephole rewrites of float arithmetic must be forms the rewrite checker can execute; a guarded algebraic identity is reported (PEEP-SOUND)."
-NOT_APPLICABLE["C33"] = "unit inference (char index vs byte offset vs token index) over lexer/parser/diagnostics needs the type-resolved MIR engine with per-field def-use; that engine was not completed in the time available, and no sound syntactic proxy was found (a name-based one would alarm on behaviour-preserving edits)"
+_C33_WAS_NA = "unit inference (char index vs byte offset vs token index) over lexer/parser/diagnostics needs the type-resolved MIR engine with per-field def-use; that engine was not completed in the time available, and no sound syntactic proxy was found (a name-based one would alarm on behaviour-preserving edits)"
 
 for _p in []:
     NOT_APPLICABLE.setdefault(_p, PENDING)
+
+CLAIMS["C33"] = {
+    "text": "Decides the unit clause (ranges start and end on character boundaries of the file they concern, also after non-ASCII text): the lexer counts chars, while the line table, the diagnostics renderer and the end-of-file token count bytes of the source; every span is converted through a len_utf8 prefix table where tokens leave the lexer (both ends), and error spans created inside the lexer are converted to file byte offsets as well (UNITS). Sites and units are read from the code on every run (Vec<char> in Lexer, match_indices in line_starts, source.len() for file_len).",
+    "note": "That a range covers exactly the token or construct the message talks about is not decided; positions derived after parsing (Location arithmetic in parse.rs) are assumed to stay within the unit they were given.",
+}
+CLAIMS["C32"]["text"] += " Positions have one unit from lexer to line table (UNITS)."
+
+NOT_APPLICABLE.pop("C30", None)
+CLAIMS["C30"] = {
+    "text": "Decides three structural clauses of the numeric half: every conversion of a literal's spelling in the parser (`parse::<i64>` / `parse::<f64>`, expression and pattern positions, plain and negated) is the scrutinee of a match whose Err arm returns or records a diagnostic - none is unwrapped; a negated literal is parsed as one spelling with its sign (so the minimum integer is writable) and never negated after parsing; the lexer appends exactly sign, digits and decimal point to the spelling and drops `_` separators (LIT-RANGE).",
+    "note": "That the spelling denotes the intended value is std's str::parse; string literals (escapes, indentation stripping) are not decided: their denotation is character-level behaviour on every string.",
+}
+
+NOT_APPLICABLE.pop("C35", None)
+CLAIMS["C35"] = {
+    "text": "Decides the same-source clause: go-to-definition looks the identifier found under the cursor up in ctx.resolution_map by node id - the table the checker and the generator read, filled by the resolver whose scoping is decided under C21 - and returns declaration_location of that declaration, which for every declaration kind with a source position is the declaration's own name node; hover returns ctx.solution_of_node of the innermost node at the offset (LSP-SOURCE). The offset searches reach every expr/stmt/arm/pattern child of every AST variant, so every identifier occurrence can be found (VISIT-COMPLETE-LSP).",
+    "note": "That the offset search picks the right node among overlapping source ranges is a relation between run-time ranges and is not decided.",
+}
+
+CLAIMS["C27"]["text"] += " The free-list link of a vacant slot is read before the slot is linked into its bucket (CHAIN-WALK)."
+CLAIMS["C29"]["text"] += " The expression loop looks for operators on the same line only, so a newline ends an expression like `;` or `,` (NEWLINE-ENDS-EXPR)."
+CLAIMS["C31"]["text"] += " Operators are not sought across newlines (NEWLINE-ENDS-EXPR)."
+CLAIMS["C37"]["text"] += " No reallocating method is applied to a buffer of any IdSet value, including a copy under construction (OWN-IDSET)."
+for _c in ("C04", "C34"):
+    CLAIMS[_c]["text"] += " The diagnostic renderer's diverging arms are unreachable behind an earlier returning guard (DIAG-TOTAL)."
+CLAIMS["C32"]["text"] += " The current file and line are set unconditionally for every translated node (LOC-DISCIPLINE)."
